@@ -70,7 +70,7 @@ class _SubprocessThread(Thread):
     def run(self):
         try:
             self._started_cv.acquire()
-            stdin = PIPE if self._stdin_input else None
+            stdin = PIPE if self._stdin_input is not None else None
 
             # pylint: disable-next=consider-using-with
             proc = Popen(self._args, shell=self._shell, cwd=self._cwd,
@@ -79,7 +79,7 @@ class _SubprocessThread(Thread):
             self._started_cv.notify()
             self._started_cv.release()
 
-            if self._stdin_input:
+            if self._stdin_input is not None:
                 proc.stdin.write(self._stdin_input)
                 proc.stdin.flush()
 
